@@ -10,6 +10,9 @@ import (
 	"net/url"
 	"strings"
 
+	"github.com/vektah/gqlparser/v2/ast"
+
+	"github.com/99designs/gqlgen/graphql"
 	"github.com/99designs/gqlgen/graphql/handler/extension"
 	"github.com/99designs/gqlgen/graphql/handler/transport"
 	"github.com/99designs/gqlgen/zzsym"
@@ -23,7 +26,9 @@ type c15Store struct{ m map[string]string }
 func (c *c15Store) Get(ctx context.Context, k string) (string, bool) { v, ok := c.m[k]; return v, ok }
 func (c *c15Store) Add(ctx context.Context, k string, v string)      { c.m[k] = v }
 
-var c15Texts = []string{`query T0 { me { name } }`, `query T1 { me { id } }`}
+// two unrelated texts, and two that differ only in white space inside a string literal
+var c15Texts = []string{`query T0 { me { name } }`, `query T1 { me { id } }`, `query T2 { user(id: "a b") { name } }`, `query T2 { user(id: "a  b") { name } }`}
+var c15Execs = []string{"query:T0", "query:T1", "query:T2(a b)", "query:T2(a  b)"}
 
 func c15Sum(s string) string {
 	h := sha256.Sum256([]byte(s))
@@ -38,7 +43,7 @@ func c15Ext(hash string) string {
 // (POST and GET transports, the APQ extension, the real executor) over
 // {text only, text+own hash, text+the other text's hash, hash only by POST,
 // hash only by GET, a body that fails JSON decoding after its query and
-// extensions members were read} x 2 texts, against the three-line model
+// extensions members were read} x 4 texts (two differing only in white space inside a string literal) x document cache off/on, against the three-line model
 // hash -> text: a hash-only request executes exactly the registered text or
 // is answered PersistedQueryNotFound, a mismatch or an undecodable body
 // executes and registers nothing, and the store only ever maps a hash to the
@@ -50,12 +55,15 @@ func Harness_C15_server() {
 	srv.AddTransport(transport.GET{})
 	srv.AddTransport(transport.POST{})
 	srv.Use(extension.AutomaticPersistedQuery{Cache: store})
+	if zzsym.Choice("doccache", 2) == 1 {
+		srv.SetQueryCache(graphql.MapCache[*ast.QueryDocument]{})
+	}
 	model := map[string]string{}
 	n := zzsym.Param("hist", 2)
 	for step := 0; step < n; step++ {
 		kind := zzsym.Choice("kind", 7)
-		ti := zzsym.Choice("text", 2)
-		text, other := c15Texts[ti], c15Texts[1-ti]
+		ti := zzsym.Choice("text", len(c15Texts))
+		text, other := c15Texts[ti], c15Texts[ti^1]
 		q, _ := json.Marshal(text)
 		var r *http.Request
 		post := func(body string) {
@@ -103,11 +111,13 @@ func Harness_C15_server() {
 		} else if wantExec != "" {
 			zzsym.Assert(len(es.execs) == before+1, "the request executes exactly one operation")
 			if len(es.execs) == before+1 {
-				name := "T0"
-				if wantExec == c15Texts[1] {
-					name = "T1"
+				want := ""
+				for k, t := range c15Texts {
+					if t == wantExec {
+						want = c15Execs[k]
+					}
 				}
-				zzsym.Assert(es.execs[before] == "query:"+name, "a hash-only request executes exactly the text registered with that hash; a text request executes its own text")
+				zzsym.Assert(es.execs[before] == want, "a hash-only request executes exactly the text registered with that hash; a text request executes its own text")
 			}
 			zzsym.Assert(!strings.Contains(body, `"errors"`), "an executable request is answered without errors")
 		} else {
